@@ -121,6 +121,15 @@ CHECKS = {
             'Call shapes the builtin itself rejects may be accepted by the substitute. Known finding: eval cannot see variables '
             'named only inside the evaluated string when called from a functionalised body.',
             'DESIGN.md 2/C14'),
+    'C15': ('exploration',
+            'complete product of source-layout features; each layout is written to a module file, imported, and parser.parse_entity is compared with the node of ast.parse(module) that defines the object',
+            '3 indentation styles x 8 nesting positions x 4 decorator forms x 2 signature forms x every subset of <= 2 (thorough 3) of '
+            '11 body features (~12.9k layouts quick) plus 13 lambda / wrapper layouts per indentation: the recovered tree must be '
+            'structurally identical to the compiled definition; for lambdas an explicit UnsupportedLanguageElementError is accepted, '
+            'a different lambda never.',
+            'Known findings: a comment ending in a backslash swallows the next line; backslash-newline inside a raw string is removed '
+            '(both from the textual continuation unfolding).',
+            'DESIGN.md 2/C15'),
     'C17': ('exploration',
             'bounded-exhaustive program x option-set enumeration; the tree handed to loader.load_ast is checked against its own printed, loaded and re-parsed form',
             'For ~10.6k (program, option set, with/without __future__ import) combinations (C01 menus + a 23-kind literal/expression '
